@@ -529,20 +529,26 @@ def run_check(prop_cls, tier: str, seed: int, replay: str | None = None) -> int:
             if len(samples) < 5 and (evaluations in (1, 7, 50, 400, 3000)):
                 samples.append(prop.describe(case))
 
+    stream_state = {'main': 'not run'}
+
     def run_stream(gen_iter, t_budget, deep=False, stop_on_violation=True):
         t0 = time.time()
         batch = []
+        how = 'exhausted'
         for case in gen_iter:
             batch.append(case)
             if len(batch) >= 500:
                 evaluate(batch, deep)
                 batch = []
                 if time.time() - t0 > t_budget:
+                    how = 'cut by the time budget (%ds) after %d cases' % (t_budget, evaluations)
                     break
                 if stop_on_violation and violations:
+                    how = 'stopped at the first violation'
                     break
         if batch:
             evaluate(batch, deep)
+        stream_state['deep' if deep else 'main'] = how
 
     if replay:
         rp = json.load(open(os.path.join(VERIF, replay) if not os.path.isabs(replay) else replay))
@@ -571,7 +577,10 @@ def run_check(prop_cls, tier: str, seed: int, replay: str | None = None) -> int:
                 known_hits[known] = known_hits.get(known, 0) + 1
             else:
                 violations.append((case, fail))
-        run_stream(prop.cases(budget), budget)
+        # the budget is the nominal duration on an idle 16-core machine; the stream is only cut when it
+        # takes `slack` times longer (a busy machine must not silently lose the families generated last)
+        slack = float(os.environ.get('BV_BUDGET_SLACK') or (1.5 if prop.thorough else 3.0))
+        run_stream(prop.cases(budget), budget * slack)
         if (proof_broken or corr_mismatch) and not violations:
             print('note: %s -> intensified search for a failing input on the implementation' % (
                 'proof obligation broken' if proof_broken else 'correspondence broken'))
@@ -646,6 +655,7 @@ def run_check(prop_cls, tier: str, seed: int, replay: str | None = None) -> int:
             'correspondence_mismatches': len(corr_mismatch),
             'known_finding_hits': known_hits,
             'histogram': prop.stats,
+            'case_stream': stream_state,
             'notes': notes,
         },
         'assumptions': list(prop.ASSUMPTIONS),
@@ -657,9 +667,9 @@ def run_check(prop_cls, tier: str, seed: int, replay: str | None = None) -> int:
     with open(os.path.join(evdir, pid + '.json'), 'w') as f:
         json.dump(ev, f, indent=1, default=str)
     print('%s %s seed=%d: theorems %d/%d, cases %d (distinct non-trivial %d), corr mismatches %d, '
-          'oracle failures %d, known-finding hits %s, %.1fs -> exit %d' % (
+          'oracle failures %d, known-finding hits %s, stream %s, %.1fs -> exit %d' % (
               pid, tier, seed, len(proof['discharged']), len(names), evaluations, len(distinct),
-              len(corr_mismatch), len(violations), known_hits or '{}', wall, rc))
+              len(corr_mismatch), len(violations), known_hits or '{}', stream_state['main'].split(' (')[0], wall, rc))
     return rc
 
 
